@@ -33,7 +33,7 @@ STUB = ["wall clock", "uuid source", "file system under FileAdapter", "SdSimulat
 ASSUMPTIONS = ["automatic OPTIONS answers are Flask's own and excluded", "credential shapes that contain the token as a whole word are not sent (no verdict)",
                "states are sampled, the intruder product per state is complete"]
 FAULT_KINDS = ["unauthorised_request"]
-PROBES = ["second_server_in_process", "intruder_while_authorised_request_in_flight", "authorised_request_failed_before_burst", "state_live_session", "state_locked_session", "state_expired_externalised", "state_no_instances",
+PROBES = ["authorised_reads_before_burst", "second_server_in_process", "intruder_while_authorised_request_in_flight", "authorised_request_failed_before_burst", "state_live_session", "state_locked_session", "state_expired_externalised", "state_no_instances",
           "authorised_twin_request_changes_state", "malformed_header_500"]
 EXHAUSTIVE = {"quick": False, "thorough": False}
 
@@ -51,6 +51,9 @@ BODIES = {
     "stream-steps": {"settings": SET9},
     "begin-session": {"scenario_managers": ["smA"], "scenarios": ["base", "alt"], "equations": ["stock"], "settings": SET9},
 }
+
+
+LOOKALIKE_IDS = ["metrics", "healthy-1", "full-metrics", "static"]
 
 
 def shapes(T):
@@ -102,6 +105,10 @@ def generate(spec):
         # authorised requests that FAIL inside their handler (unknown scenario, empty body, unknown instance ...)
         ops.append({"op": "auth_fail", "which": rng.choice(["equations_unknown", "agents_empty", "run_unknown_manager", "begin_unknown_instance",
                                                             "equations_no_json"])})
+    if rng.random() < 0.6:
+        # an authorised client reads everything that can be read (every GET rule, with the live id where the rule has
+        # one): whatever the server remembers of these exchanges must not be handed to a client without the token
+        ops.append({"op": "auth_reads"})
     if rng.random() < 0.35:
         # another BptkServer object in the same process (same import name), configured with another token or with none
         ops.append({"op": "second_server", "token": rng.choice([None, "0therTok"])})
@@ -110,7 +117,7 @@ def generate(spec):
                     "sched": {"kind": "random", "seed": rng.randrange(2**32), "p": rng.choice([0.05, 0.2, 0.5])}})
     rng.shuffle(ops)
     # keep per-instance order (start < begin < step/hold/expire)
-    order = {"start": 0, "begin": 1, "step": 2, "hold_stream": 3, "expire": 4, "run": 2, "auth_fail": 2, "concurrent_intruders": 2, "second_server": 2}
+    order = {"start": 0, "begin": 1, "step": 2, "hold_stream": 3, "expire": 4, "run": 2, "auth_fail": 2, "concurrent_intruders": 2, "second_server": 2, "auth_reads": 2}
     by = {}
     for o in ops:
         by.setdefault(o.get("name", "_"), []).append(o)
@@ -176,6 +183,19 @@ def _auth_op(w, st, o, held):
         # what the OTHER server accepts must not matter to the first one; use it once so that it is really alive
         rr = other.test_client().get("/healthy")
         return Resp(rr.status_code, rr.get_data(as_text=True))
+    if op == "auth_reads":
+        from worlds.server_world import Resp
+        seen = []
+        for (rule, method, has_id, args) in _targets(w.app):
+            if method != "GET" or rule.startswith("/static"):
+                continue
+            for variant in ((rule, rule.rstrip("/") + "/") if rule != "/" else (rule,)):
+                path = variant
+                for a in args:
+                    path = path.replace("<%s>" % a, st["ids"].get("live", "feedfacefeedface") if a == "instance_uuid" else "x").replace("<path:%s>" % a, "x")
+                rr = w.get(path)
+                seen.append([variant, rr.status])
+        return Resp(200, json.dumps(seen))
     if op == "auth_fail":
         wh = o["which"]
         if wh == "equations_unknown":
@@ -269,6 +289,9 @@ def _burst(w, st, res, log, case, bno):
         idclasses.append(("locked", st["locked"]))
     if st.get("expired"):
         idclasses.append(("expired_externalised", st["expired"]))
+    # ids that look like the name of a public endpoint: "whatever the instance id" includes these
+    for lk in LOOKALIKE_IDS:
+        idclasses.append(("looks_public:" + lk, lk))
     table = w.instance_table()
     if not table and not st.get("expired"):
         res.probe("state_no_instances")
@@ -296,6 +319,8 @@ def _burst(w, st, res, log, case, bno):
             for a in args:
                 path = path.replace("<%s>" % a, iid if a == "instance_uuid" and iid else "x").replace("<path:%s>" % a, "x")
             for sname, header in shapes(case["config"]["token"]):
+                if idc.startswith("looks_public") and sname not in ("absent", "wrong"):
+                    continue
                 for bname, body in bodies:
                     key = [rule, method, sname, idc, bname]
                     if only is not None and key != only:
@@ -364,6 +389,8 @@ def _history(case, with_bursts, log, res):
                     responses.append([n, o["op"], r.status, text])
                     if o["op"] == "second_server" and with_bursts:
                         res.probe("second_server_in_process")
+                    if o["op"] == "auth_reads" and with_bursts and any(b > n for b in case["bursts"]):
+                        res.probe("authorised_reads_before_burst")
                     if o["op"] == "auth_fail" and with_bursts:
                         res.probe("authorised_request_failed_before_burst")
                     log.add("auth", n, o["op"], r.status)
